@@ -1,7 +1,7 @@
 #!/bin/sh
 # seedtest.sh <seed-dir containing patch.diff> <property id> [tier]
 # applies the seeded change to a scratch worktree of /repo HEAD, runs the check against it, removes the worktree
-d="$1"; p="$2"; tier="${3:-quick}"
+d="$(cd "$1" && pwd)"; p="$2"; tier="${3:-quick}"
 wt=$(mktemp -d /tmp/seedwt-XXXXXX); rmdir "$wt"
 git -C /repo worktree add -q "$wt" HEAD || exit 2
 if ! git -C "$wt" apply "$d/patch.diff"; then echo "PATCH DOES NOT APPLY"; git -C /repo worktree remove --force "$wt"; exit 2; fi
